@@ -102,6 +102,8 @@ PRIM = {"Z": ("Zahl", "Zahlen", "f"), "K": ("Kommazahl", "Kommazahlen", "f"), "B
 def tname(t):
     if "alias" in t:
         return t["alias"]
+    if "a" in t or "d" in t:          # a type alias / a type definition (C04): {"a"|"d": name, "of": type}, always declared feminine
+        return t.get("a") or t["d"]
     if "g" in t:
         return t["g"]
     if "b" in t:
@@ -109,6 +111,8 @@ def tname(t):
     if "s" in t:
         return t["s"]
     e = t["l"]
+    if "a" in e or "d" in e:
+        return (e.get("a") or e["d"]) + " Liste"
     if "g" in e:
         return e["g"] + " Liste"
     if "b" in e:
@@ -119,7 +123,7 @@ def tname(t):
 
 
 def tgender(t):
-    if "alias" in t:
+    if "alias" in t or "a" in t or "d" in t:
         return "f"
     if "g" in t:
         return "n"
@@ -245,7 +249,13 @@ def rlv(lv):
     raise ValueError(k)
 
 
-def article(t, case="nom"):
+WRONG_ARTICLE = {"Die": "Der", "Der": "Die", "Das": "Die", "jede": "jeden", "jeden": "jede", "jedes": "jede", "eine": "einen", "einen": "eine", "ein": "eine"}
+
+
+def article(t, case="nom", right=True):
+    """right=False: deliberately the article of another gender (C04 fault injection)"""
+    if not right:
+        return WRONG_ARTICLE[article(t, case)]
     g = tgender(t)
     return {"nom": {"f": "Die", "m": "Der", "n": "Das"}, "akk": {"f": "eine", "m": "einen", "n": "ein"}, "jede": {"f": "jede", "m": "jeden", "n": "jedes"}}[case][g]
 
@@ -255,11 +265,13 @@ def rstmts(ss, ind):
     tab = "\t" * ind
     for s in ss:
         k = s["k"]
-        if k == "var":
+        if k == "var" and s.get("c"):
+            out.append("%s%s Konstante %s ist %s." % (tab, "Die" if s.get("art", True) else "Der", s["n"], rexpr(s["e"])))
+        elif k == "var":
             if s["e"]["k"] == "fill":
-                out.append("%s%s %s %s ist %s Mal %s." % (tab, article(s["t"]), tname(s["t"]), s["n"], rexpr(s["e"]["n"]), rexpr(s["e"]["v"])))
+                out.append("%s%s %s %s ist %s Mal %s." % (tab, article(s["t"], right=s.get("art", True)), tname(s["t"]), s["n"], rexpr(s["e"]["n"]), rexpr(s["e"]["v"])))
             else:
-                out.append("%s%s %s %s ist %s." % (tab, article(s["t"]), tname(s["t"]), s["n"], rexpr(s["e"])))
+                out.append("%s%s %s %s ist %s." % (tab, article(s["t"], right=s.get("art", True)), tname(s["t"]), s["n"], rexpr(s["e"])))
         elif k == "set":
             out.append("%sSpeichere %s in %s." % (tab, rexpr(s["e"]), rlv(s["lv"])))
         elif k == "print":
@@ -287,12 +299,12 @@ def rstmts(ss, ind):
         elif k == "for":
             tn = "Buchstaben" if s["t"] == TC else tname(s["t"])
             step = "" if s["step"]["k"] == "none" else " mit Schrittgröße %s" % rexpr(s["step"])
-            out.append("%sFür %s %s %s von %s bis %s%s, mache:" % (tab, article(s["t"], "jede"), tn, s["v"], rexpr(s["from"]), rexpr(s["to"]), step))
+            out.append("%sFür %s %s %s von %s bis %s%s, mache:" % (tab, article(s["t"], "jede", s.get("art", True)), tn, s["v"], rexpr(s["from"]), rexpr(s["to"]), step))
             out += rstmts(s["body"], ind + 1)
         elif k == "foreach":
             tn = "Buchstaben" if s["t"] == TC else tname(s["t"])
             idx = " mit Index %s" % s["idx"] if s["idx"] else ""
-            out.append("%sFür %s %s %s%s in %s, mache:" % (tab, article(s["t"], "jede"), tn, s["v"], idx, rexpr(s["in"])))
+            out.append("%sFür %s %s %s%s in %s, mache:" % (tab, article(s["t"], "jede", s.get("art", True)), tn, s["v"], idx, rexpr(s["in"])))
             out += rstmts(s["body"], ind + 1)
         elif k == "break":
             out.append(tab + "Verlasse die Schleife.")
@@ -310,10 +322,10 @@ def rstmts(ss, ind):
     return out
 
 
-def rtype_ret(t):
+def rtype_ret(t, right=True):
     if t == TNONE:
         return "nichts"
-    return "%s %s" % (article(t, "akk"), "Buchstaben" if t == TC else tname(t))
+    return "%s %s" % (article(t, "akk", right), "Buchstaben" if t == TC else tname(t))
 
 
 def rfuncs(funcs, extern_funcs=(), public=False):
@@ -323,13 +335,13 @@ def rfuncs(funcs, extern_funcs=(), public=False):
         kind = ("öffentliche " if public else "") + ("generische " if fd.get("generic") else "")
         ext = "ist extern sichtbar, " if fd["n"] in extern_funcs else ""
         if not ps:
-            head = "Die %sFunktion %s gibt %s zurück, %smacht:" % (kind, fd["n"], rtype_ret(fd["ret"]), ext)
+            head = "Die %sFunktion %s gibt %s zurück, %smacht:" % (kind, fd["n"], rtype_ret(fd["ret"], fd.get("retart", True)), ext)
         elif len(ps) == 1:
-            head = "Die %sFunktion %s mit dem Parameter %s vom Typ %s, gibt %s zurück, %smacht:" % (kind, fd["n"], ps[0]["n"], rparamtype(ps[0]), rtype_ret(fd["ret"]), ext)
+            head = "Die %sFunktion %s mit dem Parameter %s vom Typ %s, gibt %s zurück, %smacht:" % (kind, fd["n"], ps[0]["n"], rparamtype(ps[0]), rtype_ret(fd["ret"], fd.get("retart", True)), ext)
         else:
             names = ", ".join(p["n"] for p in ps[:-1]) + " und " + ps[-1]["n"]
             types = ", ".join(rparamtype(p) for p in ps[:-1]) + " und " + rparamtype(ps[-1])
-            head = "Die %sFunktion %s mit den Parametern %s vom Typ %s, gibt %s zurück, %smacht:" % (kind, fd["n"], names, types, rtype_ret(fd["ret"]), ext)
+            head = "Die %sFunktion %s mit den Parametern %s vom Typ %s, gibt %s zurück, %smacht:" % (kind, fd["n"], names, types, rtype_ret(fd["ret"], fd.get("retart", True)), ext)
         lines.append(head)
         lines += rstmts(fd["body"], 1)
         lines.append("Und kann so benutzt werden:")
